@@ -23,6 +23,8 @@ type Verdict struct {
 	OK      bool // discharged (unsat for obligations, sat for covers)
 	Bytes   int
 	Retried bool
+	Agree    int      // solvers that gave the decisive answer (thorough tier waits for more than one)
+	Disagree []string // solvers that gave the opposite definite answer
 }
 
 type solverDef struct {
@@ -103,22 +105,46 @@ func solveOne(u *Universe, o *Obligation, outDir string, timeoutS int, seed int)
 	}
 	var outputs []string
 	got := 0
+	decided := false
+	var grace <-chan time.Time
+loop:
 	for got < len(solvers) {
-		r := <-ch
+		var r res
+		select {
+		case r = <-ch:
+		case <-grace:
+			break loop
+		}
 		got++
 		outputs = append(outputs, fmt.Sprintf("[%s] %s", r.solver, firstLines(r.output, 3)))
 		if r.result == "unsat" || r.result == "sat" {
+			if decided {
+				// cross-check (thorough tier): a second solver's definite answer
+				if r.result == v.Result {
+					v.Agree++
+				} else {
+					v.Disagree = append(v.Disagree, r.solver+"="+r.result)
+				}
+				continue
+			}
+			decided = true
 			v.Result, v.Solver = r.result, r.solver
+			v.Agree = 1
 			if r.result == "sat" {
 				v.Model = r.output
 			}
-			cancel()
-			break
+			if crossCheckS <= 0 || o.ExpectSat {
+				cancel()
+				break
+			}
+			grace = time.After(time.Duration(crossCheckS) * time.Second)
+			continue
 		}
-		if v.Result == "" || v.Result == "error" || v.Result == "cancelled" {
+		if !decided && (v.Result == "" || v.Result == "error" || v.Result == "cancelled") {
 			v.Result, v.Solver = r.result, r.solver
 		}
 	}
+	cancel()
 	v.Seconds = time.Since(start).Seconds()
 	v.Output = strings.Join(outputs, "\n")
 	if o.ExpectSat {
@@ -139,10 +165,18 @@ func solveOne(u *Universe, o *Obligation, outDir string, timeoutS int, seed int)
 			}
 		}
 	} else {
-		v.OK = v.Result == "unsat"
+		v.OK = v.Result == "unsat" && len(v.Disagree) == 0
+		if len(v.Disagree) > 0 {
+			v.Output += "\nSOLVERS DISAGREE: " + v.Solver + "=" + v.Result + " but " + strings.Join(v.Disagree, ", ")
+			v.Result = "disagreement"
+		}
 	}
 	return v
 }
+
+// crossCheckS > 0 (thorough tier): after the first definite answer the other solvers get this many more
+// seconds; a second unsat is recorded as agreement, a sat against an unsat fails the obligation.
+var crossCheckS = 0
 
 func firstLines(s string, n int) string {
 	lines := strings.Split(strings.TrimSpace(s), "\n")
